@@ -129,7 +129,7 @@ def gen_plan(seed, index, tier):
         "max_iter": rng.choice([1, 2, 3, 5, 7, 10, 20, 30]),
         "lp": rng.random() < 0.5,
         "eta0": rng.choice([0.5, 2.0, 5.0]),
-        "nu": rng.choice([None, 1e-3, 0.05, 0.2]),
+        "nu": rng.choice([None, 0.0, 1e-3, 0.05, 0.2]),  # 0.0 = never stop early (a gap is never negative)
         "xform": rng.choice(["df", "nd", "df2"]),
         "ties": [rng.randint(0, 1) for _ in range(400)],
         "clock": [[rng.choice(["fwd", "fwd", "back", "stall"]), rng.choice([1e-3, 1.0, 100.0, 1e6])] for _ in range(80)],
